@@ -979,22 +979,9 @@ def classify(f: dict, d: dict, module: str, src: str = "") -> dict:
         cause = "other"
         if name.lstrip().startswith("CodeBuilder(") and "<locals>" in name:
             cause = "local-class-in-lazy-stub"
-        elif _local_in_type_arg_list(name):
-            cause = "generic-serializable-local-type-arg"
 
         return {"kind": "generated-syntax-error", "cause": cause}
     return {"kind": kind, "cause": "other"}
-
-
-def _local_in_type_arg_list(line: str) -> bool:
-    """the offending line calls X._serialize([..]) / X._deserialize(.., [..]) of a GenericSerializableType and the marker of a
-    local class sits inside that list of type arguments"""
-    import re
-    for m in re.finditer(r"\._serialize\(\[(.*?)\]\)|\._deserialize\(.*?, \[(.*)\]\)", line):
-        inner = m.group(1) if m.group(1) is not None else m.group(2)
-        if inner and "<locals>" in inner:
-            return True
-    return False
 
 
 def _only_in_union_type_test(prog: str, name: str) -> bool:
